@@ -46,7 +46,7 @@ PROPS = {
  },
  "C04": {
   "module": "Zog.Props.C04",
-  "theorems": COMMON + [P + "C04." + t for t in ["parse_absent_iff", "parse_falsy_present", "blank_iff", "missing_key_nil", "validate_absent_table", "absent_default", "absent_required", "absent_optional", "slice_absent_required", "slice_absent_optional", "slice_validate_empty_required", "ptr_absent_notnil", "ptr_absent_optional", "ptr_present_allocates", "at_every_depth"]],
+  "theorems": COMMON + [P + "C04." + t for t in ["validated_default_is_the_default", "parse_absent_iff", "parse_falsy_present", "blank_iff", "missing_key_nil", "validate_absent_table", "absent_default", "absent_required", "absent_optional", "slice_absent_required", "slice_absent_optional", "slice_validate_empty_required", "ptr_absent_notnil", "ptr_absent_optional", "ptr_present_allocates", "at_every_depth"]],
   "streams": [eng(3000, 150000)],
   "trusted_base": ENGINE_TB, "assumptions": ENGINE_ASSUME,
  },
@@ -59,7 +59,7 @@ PROPS = {
  "C06": {
   "module": "Zog.Props.C06",
   "theorems": [P + "C06." + t for t in ["dyn_facts_ok", "long_keys_never_panic", "empty_object_never_panics", "struct_input_never_panics", "any_segment_never_panics", "any_map_never_panics", "any_value_never_panics", "any_preprocess_result_never_panics", "promoted_field_never_panics", "any_body_never_panics"]],
-  "streams": [st("dyn", 1500, 100000), st("http", 800, 12000)],
+  "streams": [st("dyn", 1500, 100000), st("http", 800, 12000), eng(600, 30000, "deep"), eng(800, 30000)],
   "trusted_base": ["PARTIAL: proved for the modelled glue (key buffer, nil provider, unexported fields, empty path segments, named map types, every dynamic kind) over all inputs; panics inside reflect / the standard library / user callbacks / stack exhaustion cannot be exhibited by the model and are covered only by the S-dyn stream (real code under recover)",
                    "regenerated (go/ast + source shape): Gen.dynFacts — presence of the eight guards in struct.go, internals/DataProviders.go, internals/PathBuilder.go, internals/utils.go (UnwrapPtr), parsers/zjson (behavioural probes of the working tree)",
                    "modelled, not verified: lean/Zog/Dyn.lean"],
@@ -93,8 +93,8 @@ PROPS = {
  },
  "C12": {
   "module": "Zog.Props.C12",
-  "theorems": POOLED + COMMON + [P + "C12." + t for t in ["tests_run_once_in_order", "posts_in_order_stop_at_first_error", "post_error_one_issue", "plain_error_issue_at_node_path", "posts_gated_on_no_issue", "posts_run_when_clean", "post_error_not_caught", "custom_called_with_value", "custom_mismatch_no_call", "pre_mismatch_skips", "pre_error_skips", "pre_ok_runs_inner", "pre_validate", "engine_log_is_spec_log", "callbacks_see_their_own_path", "exec_ctx_resets_values", "ctx_get_exactly_passed", "ctx_get_absent_key", "ctx_last_value_wins", "ctx_other_key_untouched", "ctx_without_reset_leaks"]] + ["Zog.Spec.proc_ev", "Zog.CtxVals.get_exactly_passed"],
-  "streams": [eng(3000, 150000), eng(2000, 100000, "catch"), eng(2000, 100000, "pre"), eng(1500, 60000, "api")],
+  "theorems": POOLED + COMMON + [P + "C12." + t for t in ["tests_run_once_in_order", "posts_in_order_stop_at_first_error", "post_error_one_issue", "plain_error_issue_at_node_path", "posts_gated_on_no_issue", "posts_run_when_clean", "post_error_not_caught", "custom_called_with_value", "custom_mismatch_no_call", "pre_mismatch_skips", "pre_error_skips", "pre_ok_runs_inner", "pre_validate", "engine_log_is_spec_log", "callbacks_see_their_own_path", "exec_ctx_resets_values", "ctx_get_exactly_passed", "ctx_get_absent_key", "ctx_last_value_wins", "ctx_other_key_untouched", "ctx_without_reset_leaks"]] + ["Zog.Spec.proc_ev", "Zog.CtxVals.get_exactly_passed", P + "C16.merge_tests", P + "C16.merge3_tests", P + "C16.heap_refines_pure"],
+  "streams": [eng(3000, 150000), eng(2000, 100000, "catch"), eng(2000, 100000, "pre"), eng(1500, 60000, "api"), st("helpers", 600, 20000)],
   "trusted_base": ENGINE_TB, "assumptions": ENGINE_ASSUME,
  },
  "C13": {
@@ -155,7 +155,7 @@ PROPS = {
  },
  "C11": {
   "module": "Zog.Props.C11",
-  "theorems": POOLED + [P + "C11." + t for t in ["catalogue_complete_en", "catalogue_complete_es", "catalogue_complete_default", "catalogue_described", "catalogue_well_formed", "user_tests_complete_en", "user_tests_complete_es", "user_tests_complete_default", "user_tests_described", "no_value_placeholder", "test_message_wins", "exec_formatter_next", "global_formatter_last", "issue_of_test_described", "i18n_uses_ctx_lang", "i18n_default_lang", "last_installation_wins", "reinstall_resets_lang_key", "lang_value_not_a_string", "issue_invariants_lift", "every_issue_has_a_message"]] + ["Zog.Spec.proc_inv"],
+  "theorems": POOLED + [P + "C11." + t for t in ["entry_points_start_from_global_formatter", "catalogue_complete_en", "catalogue_complete_es", "catalogue_complete_default", "catalogue_described", "catalogue_well_formed", "user_tests_complete_en", "user_tests_complete_es", "user_tests_complete_default", "user_tests_described", "no_value_placeholder", "test_message_wins", "exec_formatter_next", "global_formatter_last", "issue_of_test_described", "i18n_uses_ctx_lang", "i18n_default_lang", "last_installation_wins", "reinstall_resets_lang_key", "lang_value_not_a_string", "issue_invariants_lift", "every_issue_has_a_message"]] + ["Zog.Spec.proc_inv"],
   "streams": [st("msg", 1, 1), eng(2500, 100000, "fmt"), st("http", 700, 12000)],
   "trusted_base": ["regenerated on every run (run-time dump of the compiled maps and of every built-in test): lean/Zog/Gen/Tables.lean, lean/Zog/Gen/Catalogue.lean",
                    "modelled, not verified: lean/Zog/Msg.lean mirrors conf/issueFormatConf.go NewDefaultFormatter and i18n/i18n.go; strings.ReplaceAll and fmt %v are external"] + ENGINE_TB,
